@@ -48,6 +48,8 @@ type vsOp struct {
 	// operation of this run with the same value used (a *SignatureDatabase for
 	// WriteVar, the product of SignEFIVariable for WriteBlob).
 	Reuse bool `json:"reuse,omitempty"`
+	// Advance: simulated seconds that pass before this operation
+	Advance int `json:"advance_s,omitempty"`
 }
 
 type varstoreEngine struct{}
@@ -122,6 +124,11 @@ func (e *varstoreEngine) Gen(seed uint64, tier string, run int) *Trace {
 		if isSecure(i) || secureName(i) {
 			return Pick(r, dbvals)
 		}
+		if r.Chance(1, 6) {
+			// a value that begins with the very bytes the store puts in front of it (the variable's attribute mask, little-endian):
+			// a counter that reached 7 on an NV+BS+RT variable
+			return ValSpec{Kind: "maskfirst", N: Pick(r, []int{4, 8, 12}), Tag: int(c.Vars[i].Var().Attributes)}
+		}
 		return Pick(r, rawvals)
 	}
 	if r.Chance(1, 3) {
@@ -185,6 +192,21 @@ func (e *varstoreEngine) Gen(seed uint64, tier string, run int) *Trace {
 		}
 	}
 	c.SecondStore = r.Fork("second").Chance(1, 5)
+	if cr := r.Fork("clock"); cr.Chance(1, 3) {
+		// time passes between the operations; and the run starts just before a second, minute or hour gains a digit
+		if cr.Bool() {
+			t0, _ := time.Parse(time.RFC3339, c.Instant)
+			t0 = t0.Truncate(time.Hour).Add(time.Duration(Pick(cr, []int{9*3600 + 59*60 + 58, 9*60 + 58, 8, 59*60 + 8, 23*3600 + 59*60 + 58})) * time.Second)
+			if t0.After(bubbleEpoch) && t0.Before(simMaxInstant.Add(-48*time.Hour)) {
+				c.Instant = t0.UTC().Format(time.RFC3339)
+			}
+		}
+		for i := range ops {
+			if cr.Chance(2, 3) {
+				ops[i].Advance = Pick(cr, []int{1, 1, 1, 2, 51, 60, 3599})
+			}
+		}
+	}
 	var faults []Fault
 	if fr := r.Fork("faults"); fr.Chance(1, 5) {
 		c.Faulty = true
@@ -363,6 +385,9 @@ func vsExec(c vsCfg, ops []vsOp, faults []Fault, x *X) (hist []porcupine.Operati
 		}
 		vs := c.Vars[op.Var]
 		v := vs.Var()
+		if op.Advance > 0 && time.Now().Add(time.Duration(op.Advance)*time.Second).Before(simMaxInstant) {
+			time.Sleep(time.Duration(op.Advance) * time.Second)
+		}
 		x.Steps++
 		call := seq
 		seq++
